@@ -107,7 +107,9 @@ func c01SeqJobs(tier string) []*SeqJob {
 
 // c02SeqJobs: the float64 payload alphabet, all update/pass histories on one thread.
 func c02SeqJobs(tier string) []*SeqJob {
-	vals := []float64{1.0, math.Copysign(0, -1), 0, math.Inf(1), math.Inf(-1), nan1, nan2, 5e-324, math.MaxFloat64}
+	// (the all-ones and all-but-sign patterns are NaNs too: a value an implementation may be tempted to reserve)
+	vals := []float64{1.0, math.Copysign(0, -1), 0, math.Inf(1), math.Inf(-1), nan1, nan2, 5e-324, math.MaxFloat64,
+		math.Float64frombits(math.MaxUint64), math.Float64frombits(math.MaxInt64)}
 	var alphabet []string
 	for _, v := range vals {
 		alphabet = append(alphabet, fmt.Sprintf("upd %#x", math.Float64bits(v)))
